@@ -1734,6 +1734,19 @@ def drift(tier='quick'):
     shards = chunk(groups, 4000)
     binary = vlib.build_harness('release')
     traces = vlib.exec_shards(binary, shards, 'drift-')
+    # the CLI: one refresh per applied frame under --update=-1
+    cb = vlib.build_cli('release')
+    evs = []
+    for k in range(6):
+        pool = []
+        for a in [0x4e8000 + rng.getrandbits(8) for _ in range(3)]:
+            pool += nine_frames(a, rng)
+        pool += nine_frames(0, rng) + ['zz', '8D']
+        lines = [list(rng.choice(pool).encode()) for _ in range(rng.randrange(5, 60))]
+        evs.append(cli_event(cb, 'release', (['-f', '17', '-f', '4'] if k % 2 else []) + (['-c'] if k % 3 == 0 else []), lines, len(evs) + 1))
+    trc = os.path.join(vlib.workdir(), 'driftcli.trace.ndjson')
+    vlib.write_ndjson(trc, evs)
+    traces = traces + [trc]
     res = vlib.validate(traces, 'DRIFT')
     notes = {}
     n = 0
@@ -1744,8 +1757,9 @@ def drift(tier='quick'):
     out = {'events': n, 'drift': []}
     for (pred, tag), vs in sorted(notes.items()):
         e = [x for x in vlib.read_ndjson(vs[0]['trace']) if x['i'] == vs[0]['i']][0]
-        out['drift'].append({'predicate': pred, 'path': tag, 'count': len(vs), 'example_line': bytes(e['lines'][0]).decode('latin1')})
-        print('DRIFT predicate=%s path=%s count=%d example=%s' % (pred, tag, len(vs), bytes(e['lines'][0]).decode('latin1')))
+        ex = bytes(e['lines'][0]).decode('latin1') if e.get('lines') else ''
+        out['drift'].append({'predicate': pred, 'path': tag, 'count': len(vs), 'example_line': ex})
+        print('DRIFT predicate=%s path=%s count=%d example=%s' % (pred, tag, len(vs), ex))
     json.dump(out, open(os.path.join(vlib.ROOT, 'drift_report.json'), 'w'), indent=1)
     print('drift check: %d events, %d kinds of drift (see drift_report.json)' % (n, len(out['drift'])))
     return 0
